@@ -534,6 +534,9 @@ def fb_isys_scenario(g, ambient, dt):
         if name != "prev_hedge":
             add(["ask", [g.choice(["hedge", "pl", "portfolio"]), k,
                          {"model": "naked", "feats": [name, g.choice(["moneyness", "zeros", "time_to_maturity"])], "hedge": None}]])
+    # loss and price on the same grid (they simulate again themselves; nothing follows)
+    for form in ("loss", "price"):
+        add(["run", g.choice([0, 1]), ISYS_NAKED3, g.choice([1, 2, 3]), isys_steps(m / 250), g.choice([1, 2])], form)
     return scen
 
 
@@ -1109,6 +1112,256 @@ def isys_exhaustive(depth, letters, reuse=False, battery=True):
     return scens
 
 
+# ==================================================================================================
+# EVERY criterion the library offers (and a user criterion relying on the inherited HedgeLoss.cash) on the grid ambient default x
+# instrument dtype: criterion(pl), criterion(pl, target), criterion.cash(pl) (1-D and (N, 2) samples), Hedger.compute_loss and
+# Hedger.price are in the instruments' dtype.  Some criteria run an internal root search (QuadraticCVaR, the default cash) whose
+# auxiliary tensors are created at call time in the AMBIENT default dtype: the class "instruments narrower than the ambient
+# default" (float32 instruments under a float64 default) was not evaluated with them before.
+# The hedger is parameter-free; the derivative carries a clause that turns it into a short position plus one unit of cash, so the
+# P&L is positive (IsoelasticLoss is defined on positive wealth).  A criterion that has a parameter of its own (OCE.w) is cast to the
+# instruments' dtype, as one does with a model that has parameters.
+
+CRIT_NAMES = ["EntropicRiskMeasure", "EntropicLoss", "IsoelasticLoss", "IsoelasticLoss:log", "ExpectedShortfall", "QuadraticCVaR", "OCE",
+              "user:ExpU"]
+
+
+def _oce_utility(x):
+    return 1 - (-x).exp()
+
+
+def _short_plus_cash(derivative, payoff):
+    return -payoff - 1.0
+
+
+def crit_make(name, par):
+    from pfhedge.nn import EntropicRiskMeasure, EntropicLoss, IsoelasticLoss, ExpectedShortfall, QuadraticCVaR
+    from pfhedge.nn.modules.loss import OCE
+    if name == "EntropicRiskMeasure":
+        return EntropicRiskMeasure(par["a"])
+    if name == "EntropicLoss":
+        return EntropicLoss(par["a"])
+    if name == "IsoelasticLoss":
+        return IsoelasticLoss(0.5)
+    if name == "IsoelasticLoss:log":
+        return IsoelasticLoss(1.0)
+    if name == "ExpectedShortfall":
+        return ExpectedShortfall(par["p"])
+    if name == "QuadraticCVaR":
+        return QuadraticCVaR(par["lam"])
+    if name == "OCE":
+        return OCE(_oce_utility)
+    return _ExpU()
+
+
+def crit_gen_case(g, ambient, dt, name, grid=True):
+    # (the ambient default changes between simulation and evaluation only for instruments that declare a dtype: compute_loss / price
+    #  simulate again, and an instrument without a declared dtype would legitimately follow the new default)
+    stocks = ["BrownianStock", "HestonStock", "MertonJumpStock", "KouJumpStock", "LocalVolatilityStock"]
+    how = g.choice(["init", "to", "method", "kw", "prim_to", "after_simulate"]) if dt is not None else None
+    return {"criterion_battery": True, "criterion": name, "params": {"a": g.choice([0.5, 1.0, 2.0]), "p": g.choice([0.1, 0.3, 0.5, 1.0]),
+                                                                      "lam": g.choice([1.0, 2.0, 10.0])},
+            "hedger": g.choice(["naked", "naked", "black_scholes", "whalley_wilmott"]), "primary": g.choice(stocks), "dtype": dt, "cast": how,
+            "ambient": ambient, "ambient_eval": None if (grid or dt is None) else g.choice([None, "f32", "f64"]), "n_paths": g.choice([4, 8, 9]),
+            "maturity_steps": g.choice([2, 3, 5]), "n_times": g.choice([1, 2])}
+
+
+def run_criterion_case(torch, I, case):
+    """-> ('ok', instrument dtype, {quantity: dtype | ['backend', msg] | ['error', kind]}) | ('backend', msg)"""
+    from pfhedge.nn import Hedger, Naked, BlackScholes, WhalleyWilmott, HedgeLoss
+    torch.set_default_dtype(tdt(torch, case["ambient"]))
+    dt, how = case["dtype"], case["cast"]
+    tdtype = tdt(torch, dt)
+    try:
+        with torch.no_grad():
+            kw = {"dtype": tdtype} if how == "init" else {}
+            prim = case["primary"] if case["hedger"] == "naked" else "BrownianStock"
+            if prim == "LocalVolatilityStock":
+                stock = I.LocalVolatilityStock(lambda t, s: torch.full_like(s, 0.2), cost=1e-4, **kw)
+            else:
+                stock = getattr(I, prim)(cost=1e-4, **kw)
+            d = I.EuropeanOption(stock, maturity=case["maturity_steps"] / 250)
+            d.add_clause("short_plus_cash", _short_plus_cash)
+
+            def cast():
+                if how in ("to", "after_simulate"):
+                    d.to(tdtype)
+                elif how == "method":
+                    {"f16": d.half, "bf16": d.bfloat16, "f32": d.float, "f64": d.double}[dt]()
+                elif how == "kw":
+                    d.to(dtype=tdtype)
+                elif how == "prim_to":
+                    stock.to(tdtype)
+            if how in ("to", "method", "kw", "prim_to"):
+                cast()
+            try:
+                d.simulate(n_paths=case["n_paths"])
+                if how == "after_simulate":
+                    cast()
+            except (RuntimeError, NotImplementedError) as e:
+                return ("backend", str(e)[:80])
+            crit = crit_make(case["criterion"], case["params"])
+            want = stock.spot.dtype
+            if any(True for _ in crit.parameters()):
+                crit.to(want)
+            if case["hedger"] == "naked":
+                h = Hedger(Naked(), ["moneyness", "time_to_maturity"], criterion=crit)
+            else:
+                m = (BlackScholes if case["hedger"] == "black_scholes" else WhalleyWilmott)(d)
+                h = Hedger(m, m.inputs(), criterion=crit)
+            if case["ambient_eval"] is not None:
+                torch.set_default_dtype(tdt(torch, case["ambient_eval"]))
+            res = {}
+
+            def rec(key, fn):
+                try:
+                    res[key] = short(torch, fn().dtype)
+                except Exception as e:  # noqa
+                    k = isys_kind_of_error(e)
+                    res[key] = ["backend", k[1]] if k[0] == "backend" else ["error", k[1] + ": " + str(e)[:120]]
+            half = want in (torch.float16, torch.bfloat16)
+            # (a root search to the absolute precision 1e-6 cannot terminate in half precision: as above, the searches are left to
+            #  float32 / float64 instruments)
+            search_cash = type(crit).cash is HedgeLoss.cash
+            search_loss = case["criterion"] == "QuadraticCVaR"
+            try:
+                pl = h.compute_pl(d)
+            except (RuntimeError, NotImplementedError) as e:
+                return ("backend", str(e)[:80])
+            res["pl"] = short(torch, pl.dtype)
+            pl2 = torch.stack([pl, pl * 0.5 + 0.25], dim=-1)
+            if not (half and search_loss):
+                rec("loss", lambda: crit(pl))
+                rec("loss:target", lambda: crit(pl + 1.0, torch.ones_like(pl)))
+                rec("loss:2d", lambda: crit(pl2))
+                rec("compute_loss", lambda: h.compute_loss(d, n_paths=case["n_paths"], n_times=case["n_times"], enable_grad=False))
+            if not (half and (search_loss or search_cash)):
+                rec("cash", lambda: crit.cash(pl))
+                rec("cash:2d", lambda: crit.cash(pl2))
+                rec("price", lambda: h.price(d, n_paths=case["n_paths"], n_times=case["n_times"]))
+            res["payoff_after"] = short(torch, d.payoff().dtype)
+            return ("ok", short(torch, want), res)
+    finally:
+        torch.set_default_dtype(torch.float32)
+
+
+# ==================================================================================================
+# VALUES, not labels: "subsequent simulations are produced in the declared dtype".  register_buffer casts whatever simulate() hands it,
+# so a simulation that ran in another precision still carries the right dtype label.  What tells them apart is the values:
+#  - a noisy series that was produced in float64 is not float32-representable throughout (x.float().double() == x for ALL entries of the
+#    simulated steps means single-precision numbers were widened afterwards);
+#  - an instrument that declares a dtype narrower than float64 computes in that dtype whatever the ambient default is: seed for seed its
+#    buffers are those of a FRESH instrument of the same class constructed with that dtype under the float32 default.  The scalar
+#    coefficients (dt, sqrt(dt), kappa, ...) are made tensors in the ambient default and rounded to the computation dtype afterwards, which
+#    moves them by an ulp; the comparison therefore allows VAL_NARROW_ULPS ulps of the declared dtype relative to the largest entry of the
+#    series.  (The random streams of torch.randn in float32 and float64 are unrelated for >= 16 draws, so a series that was produced in
+#    the other dtype differs by the size of the noise, ~1e-2.)  torch.distributions draws the Kou jump sizes in the ambient default dtype,
+#    so for that class the random stream itself follows the ambient default and the seed-for-seed comparison across ambients says nothing.
+#  - a float32 instrument under the float64 default (every class) does not hold, throughout, the float64 run of the same seed rounded to
+#    float32 (within 2 ulps: the initial state goes through the declared dtype first).
+# Histories: the dtype is declared by the constructor, by a cast (all forms, directly / through a derivative) before or after an earlier
+# simulation in another dtype, or not at all (ambient default); the last simulation runs directly or through the derivative.
+
+VAL_N_PATHS, VAL_STEPS = 8, 10
+VAL_STREAM_FOLLOWS_AMBIENT = ("KouJumpStock",)
+VAL_NARROW_ULPS = 32
+
+
+def val_make(torch, I, prim, dtype):
+    kw = {"dtype": tdt(torch, dtype)}
+    if prim == "LocalVolatilityStock":
+        return I.LocalVolatilityStock(lambda t, s: 0.2 + 0.1 * (s - 1.0).tanh() + 0.05 * t, **kw)
+    return getattr(I, prim)(**kw)
+
+
+def val_gen_case(g, prim, ambient, final, kind):
+    """kind: 'init' (declared by the constructor) | 'recast' (simulate in another dtype, cast, simulate) | 'random'"""
+    fl = ["f16", "bf16", "f32", "f64"]
+    has_deriv = prim not in ("CIRRate", "VasicekRate")
+    forms = ["to", "method", "kw", "to_tensor"] + (["deriv_to", "deriv_method"] if has_deriv else [])
+    ops = []
+    if kind == "init" or final is None:
+        init = final
+        if final is None and kind != "init":
+            ops = [["simulate"]]
+    elif kind == "recast":
+        other = "f32" if final == "f64" else "f64"
+        init = g.choice([None, other])
+        ops = [["simulate"], [g.choice(forms), other], ["simulate"], [g.choice(forms), final]]
+    else:
+        init = g.choice([None, None] + fl)
+        for _ in range(g.randint(0, 3)):
+            k = g.weighted([("cast", 3), ("simulate", 2), ("default", 0.7), ("device", 0.5)])
+            ops.append([g.choice(forms), g.choice(["f32", "f64", "f64", g.choice(fl)])] if k == "cast" else
+                       ["default", g.choice(["f32", "f64"])] if k == "default" else ["to_device"] if k == "device" else ["simulate"])
+        ops.append([g.choice(forms), final])
+    return {"value_battery": True, "primary": prim, "ambient": ambient, "init": init, "ops": ops, "declares": final,
+            "last_simulate": g.choice(["direct", "derivative"]) if has_deriv else "direct", "seed": g.randint(0, 2 ** 31 - 1)}
+
+
+def _val_simulate(inst, deriv, through):
+    if through:
+        deriv.simulate(n_paths=VAL_N_PATHS)
+    else:
+        inst.simulate(n_paths=VAL_N_PATHS, time_horizon=VAL_STEPS / 250)
+
+
+def run_value_case(torch, I, case):
+    """-> ('ok', declared, ambient at the end, {buffer: tensor}) | ('backend', msg) | ('error', msg)"""
+    prim = case["primary"]
+    torch.set_default_dtype(tdt(torch, case["ambient"]))
+    try:
+        inst = val_make(torch, I, prim, case["init"])
+        deriv = I.EuropeanOption(inst, maturity=VAL_STEPS / 250) if prim not in ("CIRRate", "VasicekRate") else None
+        try:
+            for op in case["ops"]:
+                if op[0] == "simulate":
+                    _val_simulate(inst, deriv, False)
+                elif op[0] == "default":
+                    torch.set_default_dtype(tdt(torch, op[1]))
+                elif op[0] == "to_device":
+                    inst.to(torch.device("cpu"))
+                else:
+                    tgt = deriv if op[0].startswith("deriv_") else inst
+                    form = op[0].replace("deriv_", "")
+                    if form == "method":
+                        {"f16": tgt.half, "bf16": tgt.bfloat16, "f32": tgt.float, "f64": tgt.double}[op[1]]()
+                    elif form == "kw":
+                        tgt.to(dtype=tdt(torch, op[1]))
+                    elif form == "to_tensor":
+                        tgt.to(torch.zeros(1, dtype=tdt(torch, op[1])))
+                    else:
+                        tgt.to(tdt(torch, op[1]))
+            torch.manual_seed(case["seed"])
+            _val_simulate(inst, deriv, case["last_simulate"] == "derivative")
+        except RecursionError:
+            return ("error", "recursion_error")
+        except Exception as e:  # noqa
+            k = isys_kind_of_error(e)
+            msg = str(e)
+            if k[0] == "backend" or "Half" in msg or "BFloat16" in msg:
+                return ("backend", msg[:80])
+            return ("error", k[1] + ": " + msg[:160])
+        return ("ok", None if inst.dtype is None else short(torch, inst.dtype), short(torch, torch.get_default_dtype()),
+                {n: b.detach().clone() for n, b in inst.named_buffers()})
+    finally:
+        torch.set_default_dtype(torch.float32)
+
+
+def val_reference(torch, I, prim, dtype, seed, ambient="f32"):
+    """the simulation of a fresh instrument constructed with `dtype` under the ambient default `ambient`, same seed: {buffer: tensor} | None"""
+    torch.set_default_dtype(tdt(torch, ambient))
+    try:
+        inst = val_make(torch, I, prim, dtype)
+        torch.manual_seed(seed)
+        inst.simulate(n_paths=VAL_N_PATHS, time_horizon=VAL_STEPS / 250)
+        return {n: b.detach().clone() for n, b in inst.named_buffers()}
+    except Exception:  # noqa
+        return None
+    finally:
+        torch.set_default_dtype(torch.float32)
+
+
 def check(ctx):
     torch, pfhedge = import_impl()
     import pfhedge.instruments as I
@@ -1335,6 +1588,126 @@ def check(ctx):
                     ctx.fail("hedger input / hedge / portfolio / P&L of a parameter-free hedger with this feature among its inputs is not in the "
                              "instruments' dtype", case | {"feature": name, "quantity": q},
                              key=f"dtype:hedger-feature:{name}:{form}", detail={"instrument": inst_dt, "dtype": v, "all": res})
+    # ---------------- every criterion on the grid ambient default x instrument dtype (deterministic grid on every tier; random draws of the
+    # rest; a few cases with a change of the ambient default between simulation and evaluation)
+    cr_cases = [crit_gen_case(g, amb, dt, name) for amb in ("f32", "f64") for dt in (None, "f16", "bf16", "f32", "f64") for name in CRIT_NAMES]
+    for _ in range(16 if ctx.tier == "quick" else 150):
+        cr_cases.append(crit_gen_case(g, g.choice(["f32", "f64"]), g.choice([None, "f16", "f32", "f32", "f64"]), g.choice(CRIT_NAMES), grid=False))
+    for case in cr_cases:
+        r = run_criterion_case(torch, I, case)
+        ctx.case(case, nontrivial=True, tag="criterion_battery")
+        ctx.traces += 1
+        if r[0] == "backend":
+            ctx.stats["backend_unsupported"] += 1
+            continue
+        _, inst_dt, res = r
+        ctx.stats[f"criterion_battery:instrument={inst_dt}:ambient={case['ambient_eval'] or case['ambient']}"] += 1
+        for q, v in res.items():
+            if isinstance(v, list) and v[0] == "backend":
+                ctx.stats["criterion_battery:backend_unsupported"] += 1
+                continue
+            ctx.stats["criterion_battery:checked_dtypes"] += 1
+            if isinstance(v, list):
+                ctx.fail("evaluating a criterion (loss / cash / Hedger.compute_loss / Hedger.price) on the P&L of simulated instruments raised",
+                         case | {"quantity": q}, key=f"dtype:criterion:error:{case['criterion']}", detail=v[1])
+            elif v != inst_dt:
+                ctx.fail("a loss / cash equivalent / Hedger.compute_loss / Hedger.price computed with this criterion is not in the instruments' dtype "
+                         "(instruments narrower or wider than the ambient default dtype)", case | {"quantity": q},
+                         key=f"dtype:criterion:{case['criterion']}:{q.split(':')[0]}",
+                         detail={"instrument": inst_dt, "dtype": v, "ambient": case["ambient_eval"] or case["ambient"], "all": res})
+    # ---------------- values, not labels: simulations are PRODUCED in the declared dtype (every primary x ambient default x declared dtype,
+    # declared by the constructor / by casts around an earlier simulation / not at all; deterministic corpus on every tier plus random histories)
+    rng_state = torch.get_rng_state()
+    val_cases = []
+    for prim in PRIMS:
+        for amb in ("f32", "f64"):
+            for final in ("f64", "f32"):
+                val_cases.append(val_gen_case(g, prim, amb, final, "init"))
+                val_cases.append(val_gen_case(g, prim, amb, final, "recast"))
+            val_cases.append(val_gen_case(g, prim, amb, None, g.choice(["init", "recast"])))
+    for _ in range(24 if ctx.tier == "quick" else 300):
+        val_cases.append(val_gen_case(g, g.choice(list(PRIMS)), g.choice(["f32", "f64"]), g.choice(["f16", "bf16", "f32", "f64", "f64"]), "random"))
+    refs = {}
+    for case in val_cases:
+        prim = case["primary"]
+        r = run_value_case(torch, I, case)
+        ctx.case(case, nontrivial=True, tag="value_battery")
+        ctx.traces += 1
+        if r[0] == "backend":
+            ctx.stats["backend_unsupported"] += 1
+            continue
+        if r[0] == "error":
+            if r[1] == "recursion_error" and prim == "VasicekRate":
+                ctx.fail("VasicekRate.simulate raises RecursionError (generate_vasicek recursion)", case, key="vasicek:recursion")
+            else:
+                ctx.fail("a cast/simulate operation raised", case, key="dtype:op-error:value-battery", detail=r[1])
+            continue
+        _, declared, amb_end, bufs = r
+        want = declared or amb_end
+        ctx.stats[f"value_battery:declared={declared}:ambient={amb_end}"] += 1
+        if declared != case["declares"]:
+            ctx.fail("after a cast the instrument does not declare the requested dtype", case, key="dtype:cast-target",
+                     detail={"requested": case["declares"], "declared": declared})
+            continue
+        labels = {n: short(torch, bufs[n].dtype) for n in bufs}
+        if any(n not in bufs or labels[n] != want for n in PRIMS[prim]):
+            ctx.fail("simulate() did not produce its buffers in the declared (or default) dtype", case, key="dtype:simulate",
+                     detail={"want": want, "buffers": labels})
+            continue
+        if want == "f64":
+            for n in PRIMS[prim]:
+                x = bufs[n][:, 1:]
+                ctx.stats["value_battery:float64_series_checked"] += 1
+                if bool((x.float().double() == x).all()):
+                    ctx.fail("an instrument that declares float64 (by its constructor, a cast, or the ambient default) was simulated in SINGLE precision: "
+                             "every entry of the simulated series is a float32 number widened to float64 (the dtype label is right, the values are not "
+                             "produced in the declared dtype)", case | {"buffer": n}, key=f"dtype:simulate:values:float64-holds-single-precision:{prim}",
+                             detail={"buffer": n, "declared": declared, "ambient": amb_end, "first_path": [float(v) for v in bufs[n][0, :4]]})
+                    break
+            continue
+        # a dtype narrower than float64
+        eps = float(torch.finfo(tdt(torch, want)).eps)
+        follows = prim in VAL_STREAM_FOLLOWS_AMBIENT and amb_end != "f32"
+        if not follows:
+            rk = (prim, want, case["seed"], "f32")
+            if rk not in refs:
+                refs[rk] = val_reference(torch, I, prim, *rk[1:])
+            ref = refs[rk]
+            if ref is None:
+                ctx.stats["value_battery:reference_unavailable"] += 1
+                continue
+            for n in PRIMS[prim]:
+                ctx.stats["value_battery:narrow_series_checked"] += 1
+                a, b = bufs[n].double(), ref[n].double()
+                nan = a.isnan() | b.isnan()
+                scale = max(float(b[~b.isnan()].abs().max()) if bool((~b.isnan()).any()) else 0.0, 1e-30)
+                if bool((a.isnan() != b.isnan()).any()) or bool(((a - b).abs()[~nan] > VAL_NARROW_ULPS * eps * scale).any()):
+                    ctx.fail("an instrument that declares a dtype narrower than float64 was not simulated in the declared dtype: seed for seed its buffers "
+                             "are not those of a fresh instrument constructed with that dtype under the float32 default (beyond the rounding of the "
+                             "scalar coefficients): the values were produced in another dtype (another random stream) and rounded afterwards",
+                             case | {"buffer": n}, key=f"dtype:simulate:values:not-produced-in-declared-dtype:{prim}",
+                             detail={"buffer": n, "declared": declared, "ambient": amb_end, "first_path": [float(v) for v in bufs[n][0, :4]],
+                                     "reference_first_path": [float(v) for v in ref[n][0, :4]], "max_abs_difference": float((a - b).abs()[~nan].max())})
+                    break
+        if want == "f32" and amb_end == "f64":
+            rk = (prim, "f64", case["seed"], "f64")
+            if rk not in refs:
+                refs[rk] = val_reference(torch, I, prim, *rk[1:])
+            ref = refs[rk]
+            if ref is None:
+                ctx.stats["value_battery:reference_unavailable"] += 1
+                continue
+            for n in PRIMS[prim]:
+                ctx.stats["value_battery:narrow_series_checked:not_the_rounded_ambient_run"] += 1
+                a, b = bufs[n][:, 1:].double(), ref[n][:, 1:].float().double()
+                if bool(((a - b).abs() <= 2 * eps * b.abs()).all()):
+                    ctx.fail("a float32 instrument under the float64 default holds, throughout, the values of the float64 simulation of the same seed rounded "
+                             "to float32: it was simulated in the ambient default dtype and cast afterwards", case | {"buffer": n},
+                             key=f"dtype:simulate:values:ambient-run-rounded:{prim}",
+                             detail={"buffer": n, "declared": declared, "ambient": amb_end, "first_path": [float(v) for v in bufs[n][0, :4]],
+                                     "float64_run_first_path": [float(v) for v in ref[n][0, :4]]})
+                    break
+    torch.set_rng_state(rng_state)
     # ---------------- the system model (Model/InstrSys.lean)
     sys_items = []                                  # (tag, scenario, real execution)
     t_sys = time.time()
